@@ -8,8 +8,25 @@ mod gen;
 
 use std::io::{BufRead, BufWriter, Write};
 
+/// A logger that formats every record and throws it away: with a logger installed the crate's
+/// `log::warn!/error!` arguments are actually evaluated (a panic hidden in one would otherwise go unseen).
+struct Sink;
+impl log::Log for Sink {
+    fn enabled(&self, _: &log::Metadata) -> bool {
+        true
+    }
+    fn log(&self, record: &log::Record) {
+        let s = format!("{}", record.args());
+        std::hint::black_box(s);
+    }
+    fn flush(&self) {}
+}
+static SINK: Sink = Sink;
+
 fn main() {
     std::panic::set_hook(Box::new(|_| {}));
+    let _ = log::set_logger(&SINK);
+    log::set_max_level(log::LevelFilter::Trace);
     let args: Vec<String> = std::env::args().collect();
     let stdout = std::io::stdout();
     let mut out = BufWriter::new(stdout.lock());
